@@ -91,7 +91,7 @@ def run_tree(rec, tier, seed, ti, spec, t):
     for name, decl, path in spec.classes():
         vg = ValueGen(it, rng, "nd")
         seen = set()
-        for j in range(VALUES[tier]):
+        for j in range(VALUES[tier] * (2 if ti < 0 else 1)):  # the hand-written tree gets four times the values
             obj = vg.message(name)
             mw = RefWriter()
             mw.sanitize = rng.random() < 0.3
